@@ -24,14 +24,29 @@
       `cli_usage_error_shape`       an unknown command or flag, an unreadable file: code 400, the text as message
       `cli_encoding_failure_shape`  a result that cannot be encoded: code 422, key `marshal`, the text as message
       `cli_error_code`, `cli_lib_error_keeps_key`, `cli_present_idem`, `cli_members_allowed`, `cli_never_bare`
-  * `Expect.*`                over the keys regenerated from errors.go / internal/cli/errors.go
+  * three places where the input controls a pointer (Model/PanicsEnvelope.lean: every pointer an
+    `Option`, the function as it is now and as it was at /repo 87b8cf5):
+      `verifySignature_never_panics`   FULL: absent header, null entries in the envelope's own stamps /
+                                       links, null entries in the header a signature signs, any keys:
+                                       always one of the four verdicts
+      `verifySignature_head_nil`, `verifySignature_own_null`, `verifySignature_payload_null`,
+      `verifySignature_ok_sound`, `verifySignature_agrees_with_old`, `contains_never_panics`
+      `old_head_nil_panics`, `old_payload_null_panics`, `old_own_null_panics`   the three guards are
+                                       necessary (kernel-checked counter-examples on the old function)
+      `sign_never_panics` (FULL), `sign_nil_key`, `old_sign_nil_key_panics`, `sign_agrees_with_old`
+      `calcRefs_ok_iff` (FULL characterisation), `calcRefs_never_panics`, `calcRefs_order_irrelevant`,
+      `old_calcRefs_unknown_currency_panics`, `calcRefs_on_the_counterexamples`
+  * `Expect.*`                over the keys regenerated from errors.go / internal/cli/errors.go, and
+                              the guards above over `Generated/PanicGuardFacts.lean`
 
   Every panic the harness finds on the unchanged tree is a listed known
   finding identified by call site (entry stage, innermost gobl function).
 -/
 import GoblVerif.Model.Panics
+import GoblVerif.Model.PanicsEnvelope
 import GoblVerif.Model.Bulk
 import GoblVerif.Generated.ErrorFacts
+import GoblVerif.Generated.PanicGuardFacts
 
 namespace GoblVerif.Props.C14
 open GoblVerif.Panics
@@ -236,6 +251,308 @@ theorem cli_never_bare (e : CliErrIn) (h : e.WellFormed documentedKeys) :
   · simp [hm]
   · simp [hf]
 
+/-! ## verifySignature, Sign, calculateOrgDocumentRefs: no dereference is left -/
+
+private theorem entryIn_no_panic (t : Entry) (own : List (Option Entry)) (h : own.any (·.isNone) = false) :
+    (entryIn (some t) own).isPanic = false := by
+  induction own with
+  | nil => rfl
+  | cons s rest ih =>
+    cases s with
+    | none => simp at h
+    | some x =>
+      simp only [List.any_cons, Option.isNone_some, Bool.false_or] at h
+      simp only [entryIn]
+      split
+      · rfl
+      · exact ih h
+
+private theorem allIn_no_panic (own l : List (Option Entry)) (ho : own.any (·.isNone) = false)
+    (hl : l.any (·.isNone) = false) : (allIn own l).isPanic = false := by
+  induction l with
+  | nil => rfl
+  | cons s2 rest ih =>
+    cases s2 with
+    | none => simp at hl
+    | some t =>
+      simp only [List.any_cons, Option.isNone_some, Bool.false_or] at hl
+      have h1 := entryIn_no_panic t own ho
+      have h2 := ih hl
+      simp only [allIn]
+      cases he : entryIn (some t) own with
+      | ok b =>
+        cases b with
+        | true => exact h2
+        | false => rfl
+      | err k => rfl
+      | panic s => rw [he] at h1; simp [Outcome.isPanic] at h1
+
+private theorem entryIn_not_err (s2 : Option Entry) (o : List (Option Entry)) (k : String) : entryIn s2 o ≠ .err k := by
+  induction o with
+  | nil => intro h; simp [entryIn] at h
+  | cons s rest ih =>
+    cases s with
+    | none => simp [entryIn]
+    | some x =>
+      cases s2 with
+      | none => simp [entryIn]
+      | some t =>
+        simp only [entryIn]
+        by_cases hx : x = t
+        · simp [hx]
+        · simpa [hx] using ih
+
+private theorem allIn_not_err (own l : List (Option Entry)) (k : String) : allIn own l ≠ .err k := by
+  induction l with
+  | nil => intro h; simp [allIn] at h
+  | cons s2 rest ih =>
+    simp only [allIn]
+    cases he : entryIn s2 own with
+    | ok b =>
+      cases b with
+      | true => exact ih
+      | false => simp
+    | err k' => exact absurd he (entryIn_not_err s2 own k')
+    | panic s => simp
+
+private theorem allIn_bool (own l : List (Option Entry)) (ho : own.any (·.isNone) = false)
+    (hl : l.any (·.isNone) = false) : ∃ b, allIn own l = .ok b := by
+  have h1 := allIn_no_panic own l ho hl
+  cases h : allIn own l with
+  | ok b => exact ⟨b, rfl⟩
+  | err k => exact absurd h (allIn_not_err own l k)
+  | panic s => rw [h] at h1; simp [Outcome.isPanic] at h1
+
+/-- `Contains` between two headers without null entries: a truth value, nothing else -/
+theorem contains_never_panics (rest : Bool) (h p : PHeader) (hh : hasNullEntries h = false) (hp : hasNullEntries p = false) :
+    ∃ b, containsP rest h p = .ok b := by
+  simp only [hasNullEntries, Bool.or_eq_false_iff] at hh hp
+  obtain ⟨b1, e1⟩ := allIn_bool h.stamps p.stamps hh.1 hp.1
+  obtain ⟨b2, e2⟩ := allIn_bool h.links p.links hh.2 hp.2
+  unfold containsP
+  cases hc : (h.uuid != p.uuid || digMismatch h p) with
+  | true => exact ⟨false, by simp⟩
+  | false =>
+    rw [e1, e2]
+    cases b1 <;> cases b2 <;> simp [bothIn]
+
+private theorem afterPayload_verdict (rest : Bool) (h p : PHeader) (hh : hasNullEntries h = false) :
+    ∃ v, afterPayload rest h p = .ok v := by
+  unfold afterPayload
+  cases hp : hasNullEntries p with
+  | true => simp
+  | false =>
+    obtain ⟨b, hb⟩ := contains_never_panics rest h p hh hp
+    cases b <;> simp [hb, verdictOf]
+
+/-- FULL: whatever the header of the envelope (absent, with null entries),
+    whatever the signature signs (nothing readable, a header with null
+    entries) and whatever keys are given, `verifySignature` answers with one
+    of its four verdicts: it neither panics nor fails otherwise -/
+theorem verifySignature_never_panics (rest : Bool) (head : Option PHeader) (sig : PSig) :
+    ∃ v, verifySignatureP rest head sig = .ok v := by
+  cases head with
+  | none => exact ⟨_, rfl⟩
+  | some h =>
+    cases hh : hasNullEntries h with
+    | true => exact ⟨.mismatch, by simp [verifySignatureP, hh]⟩
+    | false =>
+      cases hp : sig.payload with
+      | none =>
+        cases he : sig.verifiesUnder.isEmpty <;> cases ha : sig.verifiesUnder.any id <;>
+          simp [verifySignatureP, hh, hp, he, ha]
+      | some p =>
+        obtain ⟨v, hv⟩ := afterPayload_verdict rest h p hh
+        cases he : sig.verifiesUnder.isEmpty <;> cases ha : sig.verifiesUnder.any id <;>
+          simp [verifySignatureP, hh, hp, he, ha, hv]
+
+/-- an envelope without a header: "header mismatch" -/
+theorem verifySignature_head_nil (rest : Bool) (sig : PSig) :
+    verifySignatureP rest none sig = .ok .mismatch := rfl
+
+/-- null entries in the envelope's own stamps or links: "header mismatch" -/
+theorem verifySignature_own_null (rest : Bool) (h : PHeader) (sig : PSig) (hh : hasNullEntries h = true) :
+    verifySignatureP rest (some h) sig = .ok .mismatch := by
+  simp [verifySignatureP, hh]
+
+/-- null entries in the header a signature signs: "invalid signature payload",
+    without keys and under a key that verifies alike -/
+theorem verifySignature_payload_null (rest : Bool) (h p : PHeader) (ks : List Bool)
+    (hh : hasNullEntries h = false) (hp : hasNullEntries p = true) (hk : ks.isEmpty = true ∨ ks.any id = true) :
+    verifySignatureP rest (some h) ⟨some p, ks⟩ = .ok .badPayload := by
+  unfold verifySignatureP
+  simp only [hh, Bool.false_eq_true, if_false]
+  rcases hk with hk | hk
+  · simp [hk, afterPayload, hp]
+  · cases he : ks.isEmpty with
+    | true => simp [afterPayload, hp]
+    | false => simp [hk, afterPayload, hp]
+
+/-- the verdict is `ok` only if the header is there, nothing is null and the signed header is contained -/
+theorem verifySignature_ok_sound (rest : Bool) (head : Option PHeader) (sig : PSig)
+    (h : verifySignatureP rest head sig = .ok .ok) :
+    ∃ hd p, head = some hd ∧ sig.payload = some p ∧ hasNullEntries hd = false ∧ hasNullEntries p = false ∧
+      containsP rest hd p = .ok true := by
+  cases head with
+  | none => simp [verifySignatureP] at h
+  | some hd =>
+    cases hh : hasNullEntries hd with
+    | true => simp [verifySignatureP, hh] at h
+    | false =>
+      have key : ∀ p, afterPayload rest hd p = .ok .ok → hasNullEntries p = false ∧ containsP rest hd p = .ok true := by
+        intro p hp
+        unfold afterPayload at hp
+        cases hn : hasNullEntries p with
+        | true => simp [hn] at hp
+        | false =>
+          simp only [hn, Bool.false_eq_true, if_false] at hp
+          refine ⟨rfl, ?_⟩
+          cases hc : containsP rest hd p with
+          | ok b => cases b <;> simp_all [verdictOf]
+          | err k => simp [hc, verdictOf] at hp
+          | panic s => simp [hc, verdictOf] at hp
+      cases hp : sig.payload with
+      | none =>
+        cases he : sig.verifiesUnder.isEmpty <;> cases ha : sig.verifiesUnder.any id <;>
+          simp [verifySignatureP, hh, hp, he, ha] at h
+      | some p =>
+        have hap : afterPayload rest hd p = .ok .ok := by
+          cases he : sig.verifiesUnder.isEmpty <;> cases ha : sig.verifiesUnder.any id <;>
+            simp [verifySignatureP, hh, hp, he, ha] at h <;> exact h
+        exact ⟨hd, p, rfl, rfl, hh, (key p hap).1, (key p hap).2⟩
+
+/-- where nothing is null and the header is there, the guards change nothing:
+    the function is the one of 87b8cf5 -/
+theorem verifySignature_agrees_with_old (rest : Bool) (h : PHeader) (sig : PSig) (hh : hasNullEntries h = false)
+    (hp : ∀ p, sig.payload = some p → hasNullEntries p = false) :
+    verifySignatureP rest (some h) sig = verifySignatureOld rest (some h) sig := by
+  unfold verifySignatureP verifySignatureOld
+  simp only [hh, Bool.false_eq_true, if_false]
+  cases hs : sig.payload with
+  | none => rfl
+  | some p => simp [afterPayload, hp p hs]
+
+/-! ### the three guards are necessary: the function of 87b8cf5 panics (kernel-checked) -/
+
+/-- `"head": null` with a signature present -/
+theorem old_head_nil_panics (rest : Bool) (p : PHeader) :
+    verifySignatureOld rest none ⟨some p, []⟩ = .panic containsSite := rfl
+
+/-- the signed header holds `"stamps":[null]` and the envelope's header has a stamp of its own -/
+theorem old_payload_null_panics :
+    verifySignatureOld true (some ⟨"u", none, [some ("prv", "1")], []⟩) ⟨some ⟨"u", none, [none], []⟩, []⟩ =
+      .panic containsSite := by decide
+
+/-- the envelope's own header holds `"links":[null]` and the signed header has a link -/
+theorem old_own_null_panics :
+    verifySignatureOld true (some ⟨"u", none, [], [none]⟩) ⟨some ⟨"u", none, [], [some ("k", "u")]⟩, [true]⟩ =
+      .panic containsSite := by decide
+
+/-- … and the present function answers those three inputs -/
+theorem guarded_on_the_counterexamples :
+    verifySignatureP true none ⟨some ⟨"u", none, [], []⟩, []⟩ = .ok .mismatch ∧
+    verifySignatureP true (some ⟨"u", none, [some ("prv", "1")], []⟩) ⟨some ⟨"u", none, [none], []⟩, []⟩ = .ok .badPayload ∧
+    verifySignatureP true (some ⟨"u", none, [], [none]⟩) ⟨some ⟨"u", none, [], [some ("k", "u")]⟩, [true]⟩ = .ok .mismatch := by
+  decide
+
+/-! ### Sign -/
+
+/-- FULL: `Sign` with any key (nil, without key material, invalid, valid) and
+    with or without a header gives a result or a keyed error -/
+theorem sign_never_panics (headPresent : Bool) (k : PKey) (validAfter : Bool) :
+    signP headPresent k validAfter = .ok () ∨
+      ∃ e, signP headPresent k validAfter = .err e ∧ (e = "validation" ∨ e = "signature") := by
+  cases headPresent <;> cases k <;> cases validAfter <;> simp [signP, signWith, keyValid]
+  all_goals (rename_i v; cases v <;> simp)
+
+/-- a missing key is the error `signature` -/
+theorem sign_nil_key (validAfter : Bool) : signP true .nil validAfter = .err "signature" ∧
+    signP true .empty validAfter = .err "signature" := ⟨rfl, rfl⟩
+
+/-- the function of 87b8cf5 panics on it -/
+theorem old_sign_nil_key_panics (validAfter : Bool) : signOld true .nil validAfter = .panic keyValidateSite := rfl
+
+/-- for every key that is not nil nothing changed -/
+theorem sign_agrees_with_old (hp : Bool) (k : PKey) (va : Bool) (hk : k ≠ .nil) : signP hp k va = signOld hp k va := by
+  cases k with
+  | nil => exact absurd rfl hk
+  | empty => rfl
+  | key v => rfl
+
+/-! ### calculateOrgDocumentRefs -/
+
+/-- FULL characterisation: the references are calculated iff every one that is
+    there has a known currency of its own or, lacking one, the document's is known;
+    otherwise the outcome is the error; there is no third outcome -/
+theorem calcRefs_ok_iff (known : String → Bool) (docCur : String) (refs : List (Option PRef)) :
+    (calcRefs known docCur refs = .ok () ↔ ∀ r, some r ∈ refs → known (r.effective docCur) = true) ∧
+    (calcRefs known docCur refs = .ok () ∨ calcRefs known docCur refs = .err "calculation") := by
+  induction refs with
+  | nil => simp [calcRefs]
+  | cons x rest ih =>
+    cases x with
+    | none => simpa [calcRefs] using ih
+    | some r =>
+      simp only [calcRefs]
+      cases hk : known (r.effective docCur) with
+      | false =>
+        simp only [Bool.false_eq_true, if_false]
+        refine ⟨⟨fun h => by simp at h, fun h => ?_⟩, Or.inr trivial⟩
+        have := h r (by simp)
+        simp [hk] at this
+      | true =>
+        simp only [if_true]
+        refine ⟨⟨fun h q hq => ?_, fun h => ?_⟩, ih.2⟩
+        · simp only [List.mem_cons, Option.some.injEq] at hq
+          rcases hq with rfl | hq
+          · exact hk
+          · exact ih.1.mp h q hq
+        · exact ih.1.mpr (fun q hq => h q (by simp [hq]))
+
+/-- hence: never a panic -/
+theorem calcRefs_never_panics (known : String → Bool) (docCur : String) (refs : List (Option PRef)) :
+    (calcRefs known docCur refs).isPanic = false := by
+  rcases (calcRefs_ok_iff known docCur refs).2 with h | h <;> simp [h, Outcome.isPanic]
+
+/-- the outcome does not depend on the order of the references (the currency
+    of one reference no longer stays in force for the next: /repo 17c3526) -/
+theorem calcRefs_order_irrelevant (known : String → Bool) (docCur : String) (a b : List (Option PRef))
+    (h : ∀ x, x ∈ a ↔ x ∈ b) : calcRefs known docCur a = calcRefs known docCur b := by
+  have ha := calcRefs_ok_iff known docCur a
+  have hb := calcRefs_ok_iff known docCur b
+  by_cases hk : ∀ r, some r ∈ a → known (r.effective docCur) = true
+  · rw [ha.1.mpr hk, hb.1.mpr (fun r hr => hk r ((h _).mpr hr))]
+  · have na : calcRefs known docCur a ≠ .ok () := fun e => hk (ha.1.mp e)
+    have nb : calcRefs known docCur b ≠ .ok () := fun e => hk (fun r hr => hb.1.mp e r ((h _).mp hr))
+    rcases ha.2 with e | e
+    · exact absurd e na
+    · rcases hb.2 with e' | e'
+      · exact absurd e' nb
+      · rw [e, e']
+
+/-- the function of 87b8cf5: an unknown currency on a reference that carries a
+    tax summary panics — and so does a LATER reference without a currency of its own -/
+theorem old_calcRefs_unknown_currency_panics (known : String → Bool) (hq : known "QQQ" = false) :
+    calcRefsOld known "EUR" [some ⟨"QQQ", true⟩] = .panic zeroSite ∧
+    calcRefsOld known "EUR" [some ⟨"QQQ", false⟩, some ⟨"", true⟩] = .panic zeroSite := by
+  simp [calcRefsOld, hq]
+
+/-- … where the present one returns the error, resp. calculates the second
+    reference in the document's currency -/
+theorem calcRefs_on_the_counterexamples (known : String → Bool) (hq : known "QQQ" = false) (he : known "EUR" = true) :
+    calcRefs known "EUR" [some ⟨"QQQ", true⟩] = .err "calculation" ∧
+    calcRefs known "EUR" [some ⟨"", true⟩, none] = .ok () := by
+  simp [calcRefs, PRef.effective, hq, he]
+
+/-! non-vacuity -/
+example : hasNullEntries ⟨"u", some "d", [some ("a", "b")], []⟩ = false := by decide
+example : verifySignatureP true (some ⟨"u", some "d", [some ("a", "b")], []⟩) ⟨some ⟨"u", some "d", [some ("a", "b")], []⟩, [false, true]⟩ = .ok .ok := by decide
+example : verifySignatureP true (some ⟨"u", some "d", [], []⟩) ⟨some ⟨"u", some "d", [some ("a", "b")], []⟩, []⟩ = .ok .mismatch := by decide
+example : verifySignatureP true (some ⟨"u", none, [], []⟩) ⟨none, [true]⟩ = .ok .noKey := by decide
+example : ∃ known : String → Bool, known "QQQ" = false ∧ known "EUR" = true := ⟨fun s => s == "EUR", by decide, by decide⟩
+example : signP true (.key true) true = .ok () := rfl
+example : (PKey.key true) ≠ .nil := by decide
+
 /-! ## non-vacuity -/
 example : (CliErrIn.plain "unknown command \"nonsense\" for \"gobl\"").WellFormed documentedKeys := by
   simp [CliErrIn.WellFormed]
@@ -309,6 +626,65 @@ theorem cli_wrapError_as_modelled :
       "out.Message = e.Error()", "return out"] := by decide
 /-- the key of the model's encoding failure is ErrMarshal's -/
 theorem model_marshal_key : errorVars.lookup "ErrMarshal" = some marshalKey := by decide
+
+open GoblVerif.Generated
+/-! ### the guards of Model/PanicsEnvelope.lean, pinned to the source -/
+
+/-- `verifySignature`: the header guard (absent, or null entries of its own)
+    comes first; each `Contains` is preceded by the null check of the signed header -/
+theorem verifySignature_guards_as_modelled :
+    PanicGuards.conds_Envelope_verifySignature =
+      ["e.Head == nil || schema.CheckNullElements(e.Head) != nil", "len(keys) == 0",
+       "err := sig.UnsafePayload(h); err != nil", "err := schema.CheckNullElements(h); err != nil",
+       "!e.Head.Contains(h)", "err := sig.VerifyPayload(k, h); err != nil",
+       "err := schema.CheckNullElements(h); err != nil", "e.Head.Contains(h)"] ∧
+    PanicGuards.stmts_Envelope_verifySignature =
+      ["return errors.New(\"header mismatch\")", "h := new(head.Header)", "err := sig.UnsafePayload(h)",
+       "return errors.New(\"invalid signature payload\")", "err := schema.CheckNullElements(h)",
+       "return errors.New(\"invalid signature payload\")", "return errors.New(\"header mismatch\")", "return nil",
+       "h := new(head.Header)", "err := sig.VerifyPayload(k, h)", "err := schema.CheckNullElements(h)",
+       "return errors.New(\"invalid signature payload\")", "return nil", "return errors.New(\"header mismatch\")",
+       "return errors.New(\"no key match found\")"] := by decide
+
+/-- `Sign`: header required, then `key.Sign` = `NewSignature(k, …)`, whose
+    `key.Validate()` answers a nil key and a key without key material with "key not set" -/
+theorem sign_guards_as_modelled :
+    PanicGuards.conds_Envelope_Sign = ["e.Head == nil", "err != nil", "err := e.Validate(); err != nil"] ∧
+    PanicGuards.stmts_Envelope_Sign.take 3 =
+      ["return ErrValidation.WithReason(\"header required\")", "sig, err := key.Sign(e.Head)", "return ErrSignature.WithCause(err)"] ∧
+    PanicGuards.stmts_PrivateKey_Sign = ["return NewSignature(k, data)"] ∧
+    PanicGuards.conds_PrivateKey_Validate =
+      ["k == nil || k.jwk == nil", "k.ID() == \"\"", "!k.jwk.Valid()", "k.jwk.IsPublic()"] ∧
+    PanicGuards.stmts_PrivateKey_Validate.head? = some "return errors.New(\"key not set\")" := by decide
+
+/-- `Signature.Verify`: a nil signature, a nil key and a key without key material are a key mismatch -/
+theorem signature_verify_guard_as_modelled :
+    PanicGuards.conds_Signature_Verify = ["s == nil || s.jws == nil || key == nil || key.jwk == nil", "err != nil"] ∧
+    PanicGuards.stmts_Signature_Verify.head? = some "return nil, ErrKeyMismatch" := by decide
+
+/-- the header's validation refuses null entries in stamps and links before it looks for duplicates -/
+theorem header_refuses_null_entries :
+    PanicGuards.header_rules_Stamps.drop 1 = ["validation.By(noNullEntries)", "DetectDuplicateStamps"] ∧
+    PanicGuards.header_rules_Links = ["validation.By(noNullEntries)", "DetectDuplicateLinks"] ∧
+    PanicGuards.conds_head_noNullEntries = ["v == nil", "v == nil"] ∧
+    PanicGuards.types_head_noNullEntries = ["case []*Stamp", "case []*Link"] := by decide
+
+/-- `cli.Verify`: the envelope is validated (null entries of its own header are
+    refused there) before any signature is looked at, and the signed header is
+    checked for null entries before `Contains` -/
+theorem cli_verify_guards_as_modelled :
+    PanicGuards.conds_cli_Verify =
+      ["err != nil", "err := jsonyaml.Unmarshal(body, env); err != nil", "err := env.Validate(); err != nil",
+       "key == nil", "!env.Signed()", "err := sig.VerifyPayload(key, h); err != nil",
+       "err := schema.CheckNullElements(h); err != nil", "!env.Head.Contains(h)"] := by decide
+
+/-- `calculateOrgDocumentRefs`: nil entries skipped, the document's currency
+    unless the reference has its own, an unknown one is an error -/
+theorem calculateOrgDocumentRefs_as_modelled :
+    PanicGuards.conds_calculateOrgDocumentRefs = ["dr == nil", "dr.Currency != currency.CodeEmpty", "c.Def() == nil"] ∧
+    PanicGuards.stmts_calculateOrgDocumentRefs.take 2 = ["c := cur", "c = dr.Currency"] ∧
+    PanicGuards.stmts_calculateOrgDocumentRefs.getLast? = some "return nil" ∧
+    PanicGuards.calls_calculateOrgDocumentRefs = ["Def", "Itoa", "Errorf", "Calculate"] := by decide
 
 end Expect
 
